@@ -40,6 +40,21 @@ var argvs = []string{
 	// conversion has to know
 	"String.fromCharCode(0xDC00)", `("12" + String.fromCharCode(0xD800))`, `"\ud83d\ude00".slice(1)`,
 	"__goSlice", "__goArr", "__goMap", "__goStruct", "__goFunc",
+	// the built-in prototype objects: they carry the [[Class]] of their kind, and some lack the internal
+	// state an instance has ("abc".split(RegExp.prototype) dereferenced a nil *regexp.Regexp until e1ce809)
+	"RegExp.prototype", "Date.prototype", "Function.prototype", "Array.prototype", "String.prototype", "Number.prototype",
+	"Boolean.prototype", "Error.prototype", "Object.prototype", "Object.create(RegExp.prototype)", "Object.create(Date.prototype)",
+}
+
+// protoArgs: indices into argvs of the prototype objects above
+func protoArgs() []int {
+	var out []int
+	for i, a := range argvs {
+		if strings.Contains(a, ".prototype") {
+			out = append(out, i)
+		}
+	}
+	return out
 }
 
 // discover enumerates every function reachable from the global object (own properties, any
@@ -381,6 +396,8 @@ func implC02(line string) string {
 }
 
 var srcSeeds = []string{
+	`RegExp.prototype.global = true; "abc".match(RegExp.prototype)`,
+	`"abc".split(RegExp.prototype)`, `"abc".replace(RegExp.prototype, "x")`, `"abc".search(RegExp.prototype)`,
 	`var a = 1; a &= 2; a |= 3; a ^= 1; a <<= 2; a >>= 1; a >>>= 1; a %= 5; a`,
 	`function f(x) { return x ? f(x - 1) : 0 } f(10)`,
 	`try { throw new Error("x") } catch (e) { e.message } finally { }`,
@@ -437,6 +454,12 @@ func genC02(c *h.Ctx) {
 			}
 			c.Add(fmt.Sprintf("call %s %d %d", fn, 6+ai%4, ai), "call:1arg")
 			c.Add(fmt.Sprintf("new %s 0 %d", fn, ai), "new")
+		}
+		// prototype objects as the argument of every function on a string, an array, a regular expression and a date
+		for _, ai := range protoArgs() {
+			for _, ri := range []int{6, 8, 10, 11} {
+				c.Add(fmt.Sprintf("call %s %d %d", fn, ri, ai), "call:prototype-object-as-argument")
+			}
 		}
 		c.Add(fmt.Sprintf("new %s 0 -", fn), "new")
 		c.Add(fmt.Sprintf("goapi %s %d %d", fn, i%len(recvs), i), "goapi")
